@@ -91,6 +91,8 @@ func c12Sig(p genDecl, fv FValue, declared bool, vd verdict) string {
 	shape := "field"
 	if p.P.PK == PArray {
 		shape = "array"
+	} else if p.P.PK == PMap {
+		shape = "map"
 	}
 	dir := "rejects a value the declared rules allow"
 	if !declared {
@@ -150,7 +152,7 @@ func runC12(cfg *vh.Config) error {
 						res.Count("class:" + p.Class)
 					}
 					dterm := p.P.Coq()
-					if p.P.Req || p.P.Opt || p.P.PK == PArray || p.P.T.Int != nil || p.P.T.Str != nil || p.P.T.Len != nil || p.P.T.HasBool || p.P.T.Enum != nil || (p.P.T.Kind == TKey && p.P.T.KF != KNone) {
+					if p.P.Req || p.P.Opt || p.P.PK != PSingle || p.P.T.Int != nil || p.P.T.Str != nil || p.P.T.Len != nil || p.P.T.HasBool || p.P.T.Enum != nil || (p.P.T.Kind == TKey && p.P.T.KF != KNone) {
 						distinct.Add(dterm)
 					}
 					var pairs []string
@@ -158,7 +160,7 @@ func runC12(cfg *vh.Config) error {
 					if ur.ok[i] {
 						res.Count("compiled")
 						fd := ur.md.Fields().Get(i)
-						if p.P.T.Kind != TFloat && p.P.PK != PMap {
+						if p.P.T.Kind != TFloat {
 							for _, fv := range fieldValues(r, p.P) {
 								vd := validateField(val, ur.md, fd, fv)
 								evals++
